@@ -84,7 +84,9 @@ PROPS = {
     "C14": dict(
         modules=["JPV.Props.C14"],
         theorems=["JPV.Props.C14_apply_pure", "JPV.Props.C14_envFind_pure", "JPV.Props.C14_apply_deterministic",
-                  "JPV.Props.C14_history", "JPV.Props.C14_frame_register", "JPV.Props.C14_frame_newEnv", "JPV.Props.C14_recompile"],
+                  "JPV.Props.C14_history", "JPV.Props.C14_frame_register", "JPV.Props.C14_frame_newEnv", "JPV.Props.C14_recompile",
+                  "JPV.Props.C14_history_configure", "JPV.Props.C14_configure_takes_effect", "JPV.Props.C14_configure_takes_effect_envFind", "JPV.Props.C14_configure_takes_effect_compile",
+                  "JPV.Props.C14_frame_configure", "JPV.Props.C14_configure_queries", "JPV.Props.C14_history_env", "JPV.Props.C14_history_env_exists", "JPV.Props.C14_step_WF"],
         tables=[T + "writes_benign", T + "random_sites_model", T + "builtin_sigs_model"],
         explore=ca.explore_c14,
     ),
